@@ -420,4 +420,55 @@ def c11(ctx):
                       'settings; judged per file by TraceIncremental.tla.')
 
 
-CHECKS = {'C11': c11, 'C03': c03, 'C10': c10, 'C12': c12, 'C13': c13, 'C01': c01, 'C02': c02, 'C04': c04, 'C07': c07, 'C08': c08, 'C09': c09}
+def c05(ctx):
+    from . import drv_gpg as d, gpgenv
+    thorough = ctx.tier == 'thorough'
+    rng = random.Random(ctx.seed)
+    ctx.mc('GpgStatus', 'MC_GpgStatus_5.cfg' if thorough else 'MC_GpgStatus.cfg', timeout=3000)
+    ctx.mc('GpgStatus', 'MC_GpgStatus_F3.cfg', expect_violation='Monotone', coverage=False)
+    # scripted backend: all sequences up to length 3 (quick) / 4 (thorough), sampled longer ones
+    seqs = list(d.all_status_sequences(4 if thorough else 3))
+    for n in (5, 6, 7):
+        for _ in range(30000 if thorough else 3000):
+            core_words = ['GOODSIG', 'VALIDSIG', rng.choice(d.VOCAB[13:])]
+            sq = core_words + [rng.choice(d.VOCAB) for _ in range(n - 3)]
+            rng.shuffle(sq)
+            seqs.append((sq, rng.choice([0, 0, 0, 1, 2])))
+    chunks = [(seqs[k:k + 1500], ctx.seed * 31 + k) for k in range(0, len(seqs), 1500)]
+    recs = [r for o in core.pool_map(d.scripted_records, chunks, chunksize=1) for r in o]
+    ctx.extra['scripted_sequences'] = len(recs)
+    ctx.sample({'direction': 'spec->code', 'record': recs[4000]})
+    if gpgenv.have_gpg():
+        S = d.build_signer()
+        try:
+            real = d.real_state_records(S, ctx.seed)
+            ctx.sample({'direction': 'code->spec (real gpg)', 'record': real[3]})
+            text = S['signed']['valid']
+            pos = list(range(len(text))) if thorough else rng.sample(range(len(text)), 160)
+            real += [r for o in core.pool_map(d.tamper_records,
+                                              [(text, S['pub']['valid'], S['keys']['valid'], pos[k::16]) for k in range(16)],
+                                              chunksize=1) for r in o]
+            real += d.cli_isolation_records(S, ctx.seed)
+        finally:
+            S['home'].close()
+        ctx.extra['real_gpg_records'] = len(real)
+        recs += real
+    else:
+        ctx.skipped.append('gpg not available: real-gpg parts skipped')
+    for k in range(0, len(recs), 200000):
+        ctx.judge('TraceGpg', 'TraceGpg.cfg', recs[k:k + 200000], None, {'module': 'TraceGpg'},
+                  sig=lambda r: hash(json_key({a: b for a, b in r.items() if a not in ('id', 'pos')})))
+    for dname in list(ctx.drift):
+        print('DRIFT: C05 %s x%d' % (dname, ctx.drift[dname]))
+    ctx.assumptions += ['gpg 2.2.40 in this sandbox; the Emits environment model is specific to it (mismatch = drift, not violation)',
+                        'owner-trust levels are set with --import-ownertrust in gemato\'s isolated (trust-model direct) home',
+                        'subkey-without-binding states are not generated (needs packet surgery)']
+    return ctx.finish(rule='GpgStatus.tla (scanner vs AcceptSig, monotonicity) for all status sequences up to length 4/5 x 3 '
+                      'exit codes by TLC; the same space (exhaustive to length 3/4, sampled to 7) replayed into the real '
+                      'verify_file and ManifestFile.load with subprocess.Popen substituted; real gpg: key states valid/'
+                      'expired/revoked/unknown/bad x five owner-trust levels through IsolatedGPGEnvironment, single-'
+                      'character tampering of a signed Manifest, `gemato verify -K -R` x -s x -P x user-keyring contents '
+                      'with snapshots of the user keyring. distinct = distinct records.')
+
+
+CHECKS = {'C05': c05, 'C11': c11, 'C03': c03, 'C10': c10, 'C12': c12, 'C13': c13, 'C01': c01, 'C02': c02, 'C04': c04, 'C07': c07, 'C08': c08, 'C09': c09}
